@@ -4,11 +4,11 @@ import re
 from pvrules.mir import is_call, peel, show, strip_generics, TRANSPARENT
 from pvrules.rules import PURE, SELF_FIELD, const_int, count_range, effect_calls
 
-CELL_T = TRANSPARENT + ["RefCell::borrow", "RefCell::borrow_mut"]
+CELL_T = TRANSPARENT + ["RefCell::borrow", "RefCell::borrow_mut", "RefCell::get_mut"]
 LC = "prometheus::counter::GenericLocalCounter::"
 VAL = SELF_FIELD("val")
 COUNTER = SELF_FIELD("counter")
-PURE_CELL = PURE + ["RefCell::borrow", "RefCell::borrow_mut", "RefCell::new"]
+PURE_CELL = PURE + ["RefCell::borrow", "RefCell::borrow_mut", "RefCell::new", "RefCell::get_mut"]
 
 
 def cell(t):
